@@ -752,10 +752,11 @@ single(Fn("aconc2", ("concrete", ["ConcDep"]), ["u64", "u64"], is_async=True, pr
 for n in ("conc2", "conc_ret", "aconc2"):
     ALL_FNS[n].recv_kind = "conc"
 # concrete dependency types of other shapes (path, generic instantiation, tuple)
-for _nm, _ty, _h in (("conc_path", "crate::corpus::ConcDep", "conc_impl"), ("conc_gen", "ConcWrap<u64>", "conc_gen_impl"), ("conc_tup", "(ConcDep, u64)", "conc_tup_impl")):
-    _f = single(Fn(_nm, ("concrete", [_ty]), ["u64", "u64"], props=("C01",)))
+for _nm, _ty, _h in (("conc_path", "crate::corpus::ConcDep", "conc_impl"), ("conc_gen", "ConcWrap<u64>", "conc_gen_impl"), ("conc_tup", "(ConcDep, u64)", "conc_tup_impl"),
+                     ("conc_cl", "ConcClone", "conc_clone_impl"), ("conc_rc", "std::sync::Arc<ConcClone>", "conc_arc_impl")):
+    _f = single(Fn(_nm, ("concrete", [_ty]), ["u64", "u64"], props=("C01", "C14")))
     _f.conc_handle = _h
-    _f2 = single(Fn("a" + _nm, ("concrete", [_ty]), ["u64", "u64"], is_async=True, props=("C01",)))
+    _f2 = single(Fn("a" + _nm, ("concrete", [_ty]), ["u64", "u64"], is_async=True, props=("C01", "C14")))
     _f2.conc_handle = _h
 # by-value dependency
 single(Fn("byval2", ("byval", ["F0"]), ["u64", "u64"], calls=["f0"]))
@@ -816,6 +817,37 @@ module("mnd", "Mnd", [
     Fn("mn0", ("nodeps", []), []),
     Fn("mn0b", ("nodeps", []), []),
 ], opts="no_deps")
+# `macro_rules!` is textually scoped: a module's fns use a macro that is REDEFINED further down
+# (and one that shadows a same-named macro of the enclosing scope below its use)
+corpus.append("macro_rules! mmac_outer {\n    () => {\n        0u64\n    };\n}\n")
+
+
+def mmac_module():
+    fa = Fn("mmac_a", ("impl", ["F0"]), ["u64", "u64"])
+    fb = Fn("mmac_b", ("impl", ["F0"]), ["u64", "u64"])
+    fc = Fn("mmac_c", ("impl", ["F0"]), ["u64", "u64"])
+    cid = new_container()
+    for f in (fa, fb, fc):
+        f.cid = cid
+        f.container_hetero = False
+        register(f, container="mmac")
+
+    def body(f, expr):
+        return (f"    pub fn {f.name}(deps: &impl F0, p0: u64, p1: u64) -> u64 {{\n        let __f = sim::enter({f.fn_id}, sim::addr(deps), &[{expr}, p1]);\n"
+                f"        sim::user_alloc(&__f);\n        sim::sync_point(&__f);\n        sim::exit(__f, &[])\n    }}\n")
+    text = (cmark(cid) + ccfg(cid) + "#[entrait(pub Mmac)]\npub mod mmac {\n    use super::*;\n"
+            "    macro_rules! mmac_k {\n        () => {\n            0u64\n        };\n    }\n"
+            + body(fa, "p0 + mmac_k!()")
+            + "    macro_rules! mmac_k {\n        () => {\n            1u64\n        };\n    }\n"
+            + body(fb, "p0 + mmac_k!() - 1")
+            + body(fc, "p0 + mmac_outer!()")
+            + "    #[allow(unused_macros)]\n    macro_rules! mmac_outer {\n        () => {\n            7u64\n        };\n    }\n"
+            "}\n" + cmark(0))
+    corpus.append(text)
+    bundle_traits.append(("Mmac", False))
+
+
+mmac_module()
 # restricted-visibility fns BEFORE plain `pub` ones, all with interchangeable signatures
 _VIS = ["pub(crate)", "pub", "pub(in crate)", "pub", "pub(crate)", "pub"]
 module("mvis", "Mvis", [Fn(f"mv_{n}", ("impl", ["F0"]), ["u64", "u64"], vis=v) for n, v in zip("cadbef", _VIS)])
@@ -1105,7 +1137,7 @@ def self_impl_fn_text(fn, id_expr):
 
 
 def trait_section(name, delegate, methods, async_trait=False, generic=False, supers="", scoped=False, dual=False,
-                  nosend=False, opts_pre="", opts_post="", flavours=()):
+                  nosend=False, opts_pre="", opts_post="", flavours=(), cross=False, macro_name="entrait"):
     """delegate: 'self' | 'ref' | 'borrow'; scoped: declare everything inside a
     module that imports Borrow / AsRef / Deref, as user code commonly does"""
     het = any(fn.hetero for fn in methods)
@@ -1129,7 +1161,7 @@ def trait_section(name, delegate, methods, async_trait=False, generic=False, sup
     opt = ", ".join(x for x in (opts_pre, opt, "?Send" if nosend else "", opts_post) if x)
     at = ("#[async_trait::async_trait(?Send)]\n" if nosend else "#[async_trait::async_trait]\n") if async_trait else ""
     tg = "<T: Fp>" if generic else ""
-    text = f"{cfg}#[entrait({opt})]\n{at}pub trait {name}{tg}{supers} {{\n" + "".join(decl_text(m) for m in methods) + "}\n"
+    text = f"{cfg}#[{macro_name}({opt})]\n{at}pub trait {name}{tg}{supers} {{\n" + "".join(decl_text(m) for m in methods) + "}\n"
     targ = "<T>" if generic else ""
     if delegate == "self":
         gen = "<const K: u16, T: Fp>" if generic else "<const K: u16>"
@@ -1173,6 +1205,15 @@ def trait_section(name, delegate, methods, async_trait=False, generic=False, sup
             fnm = "as_ref" if delegate == "ref" else "borrow"
             text += (f"{cfg}impl<const K: u16> {tr}<dyn {name} + {fl}> for App<K> {{\n    fn {fnm}(&self) -> &(dyn {name} + {fl} + 'static) {{\n"
                      f"        &self.{dfield}\n    }}\n}}\n")
+        if cross:
+            # a decoy provider handed out through the OTHER core trait (Borrow for `ref`, AsRef for
+            # `Borrow`), same `dyn` flavour and with `+ Sync`
+            cfield = f"cross_{name.lower()}"
+            APP_FIELDS.append(cfield)
+            otr, ofn = ("::core::borrow::Borrow", "borrow") if delegate == "ref" else ("AsRef", "as_ref")
+            for fl in ("", " + Sync"):
+                text += (f"{cfg}impl<const K: u16> {otr}<dyn {name}{fl}> for App<K> {{\n    fn {ofn}(&self) -> &(dyn {name}{fl} + 'static) {{\n"
+                         f"        &self.{cfield}\n    }}\n}}\n")
         if dual:
             # the application ALSO implements the trait itself (reaching it is a mis-forwarding: id 60003)
             text += f"{cfg}{at}impl<const K: u16> {name}{targ} for App<K> {{\n"
@@ -1339,6 +1380,12 @@ trait_section("ABorrowInd", "borrow", [
 trait_section("ByRefFl", "ref", [Fn("rfl1", SELF, ["u64", "u64"]), Fn("rfl2", SELF, ["u64", "u64"])], supers=": 'static", flavours=("Sync", "Send", "Send + Sync"))
 trait_section("ByBorrowFl", "borrow", [Fn("bfl1", SELF, ["u64", "u64"])], supers=": 'static", flavours=("Sync", "Send + Sync"))
 trait_section("ARefFl", "ref", [Fn("arfl1", SELF, ["u64", "u64"], is_async=True)], async_trait=True, supers=": Sync + 'static", flavours=("Sync", "Send + Sync"))
+trait_section("ByBorrowX", "borrow", [Fn("bx1", SELF, ["u64", "u64"]), Fn("bx_unit", SELF, ["u64"], ret="unit")], supers=": 'static", cross=True)
+trait_section("ByRefX", "ref", [Fn("rx1", SELF, ["u64", "u64"]), Fn("rx2", SELF, ["u64", "u64"])], supers=": 'static", cross=True)
+trait_section("ABorrowX", "borrow", [Fn("abx1", SELF, ["u64", "u64"], is_async=True), Fn("abx_sync", SELF, ["u64", "u64"])],
+              async_trait=True, supers=": Sync + 'static", cross=True)
+trait_section("ARefX", "ref", [Fn("arx1", SELF, ["u64", "u64"], is_async=True), Fn("arx_sync", SELF, ["u64", "u64"])],
+              async_trait=True, supers=": Sync + 'static", cross=True)
 # option order and company: `delegate_by` before / after `?Send` and other options; the application
 # also implements the trait itself (falling back to `Self` delegation is a mis-forwarding)
 trait_section("NsRefA", "ref", [Fn("nra1", SELF, ["u64", "u64"], is_async=True), Fn("nra_sync", SELF, ["u64", "u64"])],
@@ -1350,10 +1397,11 @@ trait_section("OptRefB", "ref", [Fn("orb1", SELF, ["u64", "u64"])], supers=": 's
 trait_section("OptBorrowA", "borrow", [Fn("oba1", SELF, ["u64", "u64"])], supers=": 'static", opts_pre="unimock = false, mockall = false", dual=True)
 trait_section("NsPlain", "self", [Fn("nsp1", SELF, ["u64", "u64"], is_async=True), Fn("nsp_sync", SELF, ["u64", "u64"])], nosend=True)
 # entraited traits with a mock API: mockable, never un-mockable
-_ut = [Fn("utr1", SELF, ["u64", "u64"]), Fn("utr_unit", SELF, ["u64"], ret="unit"), Fn("autr1", SELF, ["u64", "u64"], is_async=True)]
-trait_section("UTr", "self", _ut, opts_pre="mock_api = UTrMock")
-_utr = [Fn("utrr1", SELF, ["u64", "u64"]), Fn("utrr2", SELF, ["u64", "u64"])]
-trait_section("UTrRef", "ref", _utr, supers=": 'static", opts_pre="mock_api = UTrRefMock")
+_ut = [Fn("utr1", SELF, ["u64", "u64"]), Fn("utr_unit", SELF, ["u64"], ret="unit"), Fn("autr1", SELF, ["u64", "u64"], is_async=True),
+       Fn("utr_default", SELF, ["u64", "u64"], default_body=True), Fn("utr_default0", SELF, [], default_body=True)]
+trait_section("UTr", "self", _ut, opts_pre="mock_api = UTrMock", macro_name="entrait_export")
+_utr = [Fn("utrr1", SELF, ["u64", "u64"]), Fn("utrr2", SELF, ["u64", "u64"]), Fn("utrr_default", SELF, ["u64", "u64"], default_body=True)]
+trait_section("UTrRef", "ref", _utr, supers=": 'static", opts_pre="mock_api = UTrRefMock", macro_name="entrait_export")
 UNMOCK_NEG.extend(_ut + _utr)
 def tagged_trait(name, delegate, methods):
     """generic entraited trait whose type parameters appear in NO method signature ("tags"); the
@@ -1834,7 +1882,6 @@ unmock_traits.append(("Umn", False))
 
 # functions with a CONCRETE dependency and entraited TRAITS are not un-mockable: on a partial
 # mock with no matching clause the call must be refused (unimock panics), never run a function
-UNMOCK_NEG = []
 
 
 def uneg(fn, mock):
@@ -2055,6 +2102,40 @@ def macro_generated():
         text += (f"{cfg}#[entrait(ref)]\nimpl MacDynImpl for MacDynTarget{ab} {{\n    pub fn mac_d(deps: &impl F0, p0: u64, p1: u64) -> u64 {{\n"
                  f"        let __f = sim::enter({i2.fn_ids[which]}, sim::addr(deps), &[p0, p1]);\n        sim::user_alloc(&__f);\n        sim::sync_point(&__f);\n        sim::exit(__f, &[])\n    }}\n}}\n"
                  f"{cfg}impl AsRef<dyn MacDynImpl<Self>> for App<{which}> {{\n    fn as_ref(&self) -> &(dyn MacDynImpl<Self> + 'static) {{\n        sim::lookup({kd});\n        &self.{field}\n    }}\n}}\n")
+    # impl blocks whose self type arrives as a `$t:ty` fragment (an invisible group) or is written in
+    # parentheses; free functions named like the blocks' fns are in scope (decoys: function id 60007)
+    j1 = reg("mac_ty", False, "inversion", ("C07", "C14"), pair=True)
+    j2 = reg("mac_tyd", False, "inversion", ("C07",), pair=True)
+    j2.dynamic = True
+    j3 = reg("mac_paren", False, "inversion", ("C07", "C14"), pair=True)
+    for nm in ("mac_ty", "mac_tyd", "mac_paren"):
+        text += (f"{cfg}pub fn {nm}<D>(deps: &D, p0: u64, p1: u64) -> u64 {{\n    let __f = sim::enter(60007, sim::addr(deps), &[]);\n    let _ = (p0, p1);\n    sim::exit(__f, &[])\n}}\n")
+    text += ("pub struct MacTyTargetA(pub u64);\npub struct MacTyTargetB(pub u64);\npub struct MacTydTargetA(pub u64);\npub struct MacTydTargetB(pub u64);\n"
+             "pub struct MacParenTargetA(pub u64);\npub struct MacParenTargetB(pub u64);\n")
+    text += (f"{cfg}#[entrait(MacTyImpl, delegate_by = DelegateMacTy)]\npub trait MacTy {{\n    fn mac_ty(&self, p0: u64, p1: u64) -> u64;\n}}\n"
+             f"{cfg}#[entrait(MacTydImpl, delegate_by = ref)]\npub trait MacTyd {{\n    fn mac_tyd(&self, p0: u64, p1: u64) -> u64;\n}}\n"
+             f"{cfg}#[entrait(MacParenImpl, delegate_by = DelegateMacParen)]\npub trait MacParen {{\n    fn mac_paren(&self, p0: u64, p1: u64) -> u64;\n}}\n")
+    fnbody = ("            let __f = sim::enter($id, sim::addr(deps), &[p0, p1]);\n            sim::user_alloc(&__f);\n            sim::sync_point(&__f);\n            sim::exit(__f, &[])\n")
+    text += (f"{cfg}macro_rules! mk_mac_tyblock {{\n    ($t:ty, $id:expr) => {{\n        #[entrait]\n        impl MacTyImpl for $t {{\n            pub fn mac_ty(deps: &impl F0, p0: u64, p1: u64) -> u64 {{\n    "
+             + fnbody.replace("\n            ", "\n                ") + "            }\n        }\n    };\n}\n")
+    text += (f"{cfg}macro_rules! mk_mac_tydblock {{\n    ($t:ty, $id:expr) => {{\n        #[entrait(ref)]\n        impl MacTydImpl for $t {{\n            pub fn mac_tyd(deps: &impl F0, p0: u64, p1: u64) -> u64 {{\n    "
+             + fnbody.replace("\n            ", "\n                ") + "            }\n        }\n    };\n}\n")
+    kd2 = lookup_kind("MacTyd")
+    for which, ab in enumerate("AB"):
+        text += f"{cfg}mk_mac_tyblock!(MacTyTarget{ab}, {j1.fn_ids[which]});\n{cfg}mk_mac_tydblock!(MacTydTarget{ab}, {j2.fn_ids[which]});\n"
+        text += (f"{cfg}#[entrait]\nimpl MacParenImpl for (MacParenTarget{ab}) {{\n    pub fn mac_paren(deps: &impl F0, p0: u64, p1: u64) -> u64 {{\n"
+                 f"        let __f = sim::enter({j3.fn_ids[which]}, sim::addr(deps), &[p0, p1]);\n        sim::user_alloc(&__f);\n        sim::sync_point(&__f);\n        sim::exit(__f, &[])\n    }}\n}}\n")
+        text += (f"{cfg}impl DelegateMacTy<Self> for App<{which}> {{\n    type Target = MacTyTarget{ab};\n}}\n"
+                 f"{cfg}impl DelegateMacParen<Self> for App<{which}> {{\n    type Target = MacParenTarget{ab};\n}}\n")
+        field = f"dyn_mactyd_{ab.lower()}"
+        APP_FIELDS_TYPED.append((field, f"MacTydTarget{ab}"))
+        text += (f"{cfg}impl AsRef<dyn MacTydImpl<Self>> for App<{which}> {{\n    fn as_ref(&self) -> &(dyn MacTydImpl<Self> + 'static) {{\n        sim::lookup({kd2});\n        &self.{field}\n    }}\n}}\n")
+    for j, tgt in ((j1, "MacTyTarget"), (j2, "MacTydTarget"), (j3, "MacParenTarget")):
+        j.trait_call = f"app.{j.name}({{args}})"
+        j.direct_call = f"{tgt}{{AB}}::{j.name}(app, {{args}})"
+        j.recv_expr = "sim::addr(app)"
+    j2.lookups = 1
+    j2.lookup_kind = kd2
     i1.trait_call = "app.mac_i({args})"
     i1.direct_call = "MacInvTarget{AB}::mac_i(app, {args})"
     i1.recv_expr = "sim::addr(app)"
@@ -2138,6 +2219,12 @@ pub struct ConcDep {{
     pub pad: u64,
 }}
 pub struct ConcWrap<T>(pub T);
+/// a concrete dependency type that is `Clone` and owns heap data
+#[derive(Clone)]
+pub struct ConcClone {{
+    pub name: String,
+    pub tags: Vec<u64>,
+}}
 /// Application type; `K` selects the delegation targets (0 = A, 1 = B).
 pub struct App<const K: u16> {{
     pub id: u64,
@@ -2147,6 +2234,8 @@ pub struct App<const K: u16> {{
     pub conc_gen_impl: Impl<ConcWrap<u64>>,
     pub conc_tup_impl: Impl<(ConcDep, u64)>,
     pub conc_unit_impl: Impl<()>,
+    pub conc_clone_impl: Impl<ConcClone>,
+    pub conc_arc_impl: Impl<std::sync::Arc<ConcClone>>,
     pub conc_u64_impl: Impl<u64>,
 {fields}}}
 pub type AppA = App<0>;
@@ -2161,6 +2250,8 @@ impl<const K: u16> App<K> {{
             conc_gen_impl: Impl::new(ConcWrap(5u64)),
             conc_tup_impl: Impl::new((ConcDep {{ pad: 3 }}, 4)),
             conc_unit_impl: Impl::new(()),
+            conc_clone_impl: Impl::new(ConcClone {{ name: "conc".to_string(), tags: vec![1, 2, 3] }}),
+            conc_arc_impl: Impl::new(std::sync::Arc::new(ConcClone {{ name: "arc".to_string(), tags: vec![4] }})),
             conc_u64_impl: Impl::new(6u64),
 {inits}        }}
     }}
